@@ -147,8 +147,8 @@ class Body:
     # ---- provenance: follow copies / reborrows back to a root
     def root(self, operand, depth=0, through_calls=()):
         """Follow an operand back through copies, moves, reborrows (&*x, &mut *x), pointer
-        casts and field-free derefs. Returns a tuple describing the root:
-          ('param', n)            n in 1..argc
+        casts, derefs and fields of locally built aggregates. Returns a tuple describing the root:
+          ('param', n)            n in 1..argc (also when the parameter is reassigned: see is_reassigned)
           ('const', constdict)
           ('call', bi, term)      result of the call terminating block bi
           ('agg', bi, si, stmt)
@@ -156,23 +156,41 @@ class Body:
           ('multi', local)        several definitions
           ('other', node)
         """
-        if depth > 60:
+        if depth > 80:
             return ("other", None)
         if "c" in operand:
-            return ("const", operand["c"])
+            c = operand["c"]
+            if c.get("k") == "unev" and isinstance(c.get("promoted"), int):
+                pv = self.promoted_value(c["promoted"])
+                if pv is not None:
+                    return ("const", pv)
+            return ("const", c)
         if "p" not in operand:
             return ("other", operand)
         p = operand["p"]
         local = p[0]
         proj = [e for e in p[1:] if e != "d"]
         if proj:
+            # field of a locally built aggregate?
+            e = proj[0]
+            if isinstance(e, list) and e[0] == "f" and not (1 <= local <= self.argc):
+                ds = self.whole_defs(local)
+                if len(ds) == 1 and ds[0][1] != "t":
+                    r = ds[0][2]["r"]
+                    if r["k"] == "agg" and e[1] < len(r["ops"]) and r.get("ak") in ("tuple", "adt", "closure", "array"):
+                        sub = r["ops"][e[1]]
+                        if len(proj) == 1:
+                            return self.root(sub, depth + 1, through_calls)
+                        if "p" in sub:
+                            return self.root({"p": sub["p"] + proj[1:]}, depth + 1, through_calls)
+                    if r["k"] == "use" and "p" in r["o"]:
+                        return self.root({"p": r["o"]["p"] + proj}, depth + 1, through_calls)
+                    if r["k"] in ("ref", "rawptr"):
+                        return self.root({"p": r["p"] + proj}, depth + 1, through_calls)
             base = self.root({"p": [local]}, depth + 1, through_calls)
             return ("field", base, tuple(tuple(e) if isinstance(e, list) else e for e in proj))
         if 1 <= local <= self.argc:
-            ds = self.whole_defs(local)
-            if not ds:
-                return ("param", local)
-            return ("multi", local)
+            return ("param", local)
         ds = self.whole_defs(local)
         if len(ds) != 1:
             return ("multi", local) if ds else ("undef", local)
@@ -189,11 +207,40 @@ class Body:
             return self.root(r["o"], depth + 1, through_calls)
         if k in ("ref", "rawptr"):
             return self.root({"p": r["p"]}, depth + 1, through_calls)
-        if k == "cast" and r["ck"] in ("PtrToPtr", "Transmute") or (k == "cast" and r["ck"].startswith("PointerCoercion")):
+        if k == "cast" and (r["ck"] in ("PtrToPtr", "Transmute") or r["ck"].startswith("PointerCoercion")):
             return self.root(r["o"], depth + 1, through_calls)
         if k == "agg":
             return ("agg", bi, si, n)
         return ("other", n)
+
+    def promoted_value(self, idx):
+        """`&K` promoted constants: return the constant dict of K when the promoted body is just
+        `_1 = const K; _0 = &_1`."""
+        try:
+            pb = self.r["promoted"][idx]
+        except (KeyError, IndexError):
+            return None
+        vals = {}
+        ret = None
+        for bb in pb["blocks"]:
+            for s in bb["s"]:
+                if s["k"] != "=" or len(s["p"]) != 1:
+                    return None
+                r = s["r"]
+                if r["k"] == "use" and "c" in r["o"]:
+                    vals[s["p"][0]] = r["o"]["c"]
+                elif r["k"] == "ref" and len(r["p"]) == 1 and s["p"] == [0]:
+                    ret = r["p"][0]
+                elif r["k"] == "agg" and r.get("ak") == "array" and not r["ops"]:
+                    vals[s["p"][0]] = {"k": "emptyarray"}
+                else:
+                    return None
+        if ret is not None and ret in vals:
+            return vals[ret]
+        return None
+
+    def is_reassigned(self, param):
+        return bool(self.whole_defs(param))
 
 
 class Facts:
